@@ -28,7 +28,19 @@ def execute(case):
     G.add_edges_from([tuple(e) for e in case["edges"]])
     for i, (a, b) in enumerate(G.edges()):
         G.edges[a, b]["w"] = i            # a pre-existing attribute that must survive
-    before_attr = {frozenset(e): dict(G.edges[e]) for e in G.edges()}
+    pre = case.get("pre")
+    if pre:
+        # history on ONE graph object: it was covered before, then edited (an edge moved: counts unchanged), now covered again
+        try:
+            Oracle().run_seeded(pre.get("seed", 3), lambda: gcmpy.MPCC(G) if pre.get("limit", -1) == -1 else gcmpy.MPCC(G, pre["limit"]))
+        except Exception:
+            pass
+        if pre.get("move"):
+            (a, b), (c, d) = pre["move"]
+            if G.has_edge(a, b) and not G.has_edge(c, d):
+                G.remove_edge(a, b)
+                G.add_edge(c, d, w=1000)
+    before_attr = {frozenset(e): {k: v for k, v in G.edges[e].items() if k != "clique"} for e in G.edges()}
     limit = None if case.get("limit", -1) == -1 else case["limit"]      # -1 = argument omitted
     tr = {"case": case, "nodes": list(case["nodes"]), "edges": [list(e) for e in G.edges()], "limit": limit or 0, "raised": "",
           "returned_input": True, "nodes_after": [], "edges_after": [], "other_attrs_changed": False, "labels": [], "order_realised": False}
@@ -95,6 +107,7 @@ def _key(tr, v):
 
 def run(chk):
     thorough = chk.tier == "thorough"
+    chk.mc("MPCC", "MC_MPCC.cfg", required=["Consider", "Label", "EditAndCoverAgain"], timeout=7200)   # <= 4 vertices, cover-edit-cover histories
     chk.mc("MPCC", "MC_MPCC_5.cfg", required=["Consider", "Label"], timeout=7200)
     chk.mc("MPCC", "MC_MPCC_smallfirst.cfg", expect_violation="C10_GreedyMaximal")
     rng = _r.Random(chk.seed)
@@ -112,6 +125,18 @@ def run(chk):
                 for od in orders:
                     traces.append(execute({"nodes": nodes, "edges": es, "limit": limit, "rng": ("order", od)}))
                 traces.append(execute({"nodes": nodes, "edges": es, "limit": limit, "rng": ("seed", rng.randrange(1 << 30))}))
+    # histories: cover, move one edge (vertex and edge counts unchanged) or change only the limit, cover again
+    for n in (3, 4) + ((5,) if thorough else ()):
+        nodes = list(range(n))
+        allp = list(itertools.combinations(range(n), 2))
+        for gi, es in enumerate(all_graphs(n)):
+            if n == 5 and gi % 5:
+                continue
+            moves = [(e, f) for e in es for f in allp if f not in es] + [None]
+            for mv in moves:
+                traces.append(execute({"nodes": nodes, "edges": es, "limit": rng.choice([-1, 0, 3]), "rng": ("seed", rng.randrange(1 << 30)),
+                                       "pre": {"limit": rng.choice([-1, 0, 2, 3]), "seed": rng.randrange(1 << 30),
+                                               "move": [list(mv[0]), list(mv[1])] if mv else None}}))
     realised = sum(1 for t in traces if t["order_realised"])
     if not realised:
         chk.not_decided.append("directed clique orders could not be realised through the oracle (seeded shuffles judged instead)")
